@@ -2520,6 +2520,31 @@ impl LpgStore {
         id_to_type.get(record.type_id as usize).cloned()
     }
 
+    /// Gets the type of an edge as a transaction sees it: like
+    /// [`edge_type`](Self::edge_type), but with the visibility of
+    /// `get_edge_versioned`, so a transaction finds the type of its own uncommitted
+    /// edges and a snapshot that of the edges it can see.
+    #[must_use]
+    #[cfg(not(feature = "tiered-storage"))]
+    pub fn edge_type_versioned(&self, id: EdgeId, epoch: EpochId, tx_id: TxId) -> Option<ArcStr> {
+        let edges = self.edges.read();
+        let record = edges.get(&id)?.visible_to(epoch, tx_id)?;
+        let id_to_type = self.id_to_edge_type.read();
+        id_to_type.get(record.type_id as usize).cloned()
+    }
+
+    /// Gets the type of an edge as a transaction sees it.
+    /// (Tiered storage version)
+    #[must_use]
+    #[cfg(feature = "tiered-storage")]
+    pub fn edge_type_versioned(&self, id: EdgeId, epoch: EpochId, tx_id: TxId) -> Option<ArcStr> {
+        let versions = self.edge_versions.read();
+        let vref = versions.get(&id)?.visible_to(epoch, tx_id)?;
+        let record = self.read_edge_record(&vref)?;
+        let id_to_type = self.id_to_edge_type.read();
+        id_to_type.get(record.type_id as usize).cloned()
+    }
+
     /// Gets the type of an edge by ID.
     /// (Tiered storage version)
     #[must_use]
